@@ -367,7 +367,28 @@ def r10_packs_of_the_file_are_found_by_identity(cx):
         cx.ob = orig
 
 
+def r11_rewrite_carries_every_field(cx):
+    """`set_location` parses the 252 bytes of a pack info, replaces the location and serialises the block again: every
+    other field comes out as it went in only if `PackInfo::serialize` writes each field of the struct from that field.
+    A field replaced by a constant on the way out (a "reserved" byte the creator always writes as 0) is silently reset by
+    the first rewrite of a manifest that another writer produced -- inside the checked part of the block."""
+    F = cx.F
+    st = F.struct("common::pack_info::PackInfo")
+    f = layout.find_ser(F, "common::pack_info::PackInfo") if hasattr(layout, "find_ser") else None
+    b = F.deep_body(f, only=r"common::pack_info::")
+    read = set()
+    for i, t in b.calls():
+        if call_is(t, r"Serializer::write_", r"Serializable>::serialize$", r"serialize_string", r"PString|PArray"):
+            for a in t["args"]:
+                read |= {x[1] for x in b.origins(a) if x[0] == "field"}
+    names = [fl["name"] for fl in st["fields"]]
+    missing = [n for n in names if n not in read]
+    cx.ob("R11", "R11/PackInfo.serialize/every-field-is-written-from-itself", not missing and len(names) >= 6, f,
+          "PackInfo::serialize writes each of the %d fields of the struct from the field (never read: %s)" % (len(names), missing))
+
+
 RULES = [
+    ("R11", r11_rewrite_carries_every_field, 1),
     ("R10", r10_packs_of_the_file_are_found_by_identity, 6),
     ("R9", r9_location_read_is_the_location_stored, 1),
     ("R8", r8_location_slot_is_padded_in_one_piece, 2),
